@@ -110,6 +110,8 @@ class LPoly():
         Only Laurent polynomials of the same parity can be added together in order to preserve parity.
         '''
         if self.iszero:
+            if other.iszero:
+                return LPoly([], other.dmin)
             return LPoly(other.coefs, other.dmin)
         if other.iszero:
             return LPoly(self.coefs, self.dmin)
